@@ -265,3 +265,129 @@ def pair_calls(ctx: Ctx, fi: FunctionInfo, pred_a: Callable[[FunctionInfo], bool
                     ctx.report(rule, fi, f"option={X} a={ast.unparse(ea)[:30]} b={ast.unparse(eb)[:30]}",
                                f"{fi.qualname}: option '{X}' is {ast.unparse(ea)[:40]} for {ga.name} but {ast.unparse(eb)[:40]} for {gb.name}", cb)
     return len(A), len(B)
+
+
+# ----------------------------------------------------------------------------- option forwarding (cross-cutting)
+# Options whose meaning is the same in caller and callee (conventions, flags, scalars). Per-axis quantities whose axis order may
+# legitimately differ between tensor and grid code (size, kernel_size, margin, ...) and plumbing (dtype, device) are not listed.
+FORWARDED_OPTIONS = {"align_corners", "link", "update_buffers", "inverse", "steps", "scale", "stride", "spacing", "sigma", "dims",
+                     "reduction", "mask", "padding", "mode", "sampling", "min_size", "levels", "norm", "weight", "alpha", "beta", "order",
+                     "homogeneous", "channels_last", "vectors", "to_grid", "to_axes", "axes", "compress", "derivative", "which", "epsilon",
+                     "normalize", "binarize", "decimals", "transpose", "kernel"}
+
+# (caller, callee, option) -> reason: sites confirmed by reading where the option legitimately does not travel as an argument
+FORWARD_EXCEPTIONS: Dict[Tuple[str, str, str], str] = {
+    ("deepali.core.cube:Cube.apply_transform", "deepali.core.linalg:homogeneous_transform", "vectors"):
+        "vectors=True is consumed by self.transform(..., vectors=...), which returns the translation-free matrix",
+    ("deepali.core.grid:Grid.apply_transform", "deepali.core.linalg:homogeneous_transform", "vectors"):
+        "vectors=True is consumed by self.transform(..., vectors=...), which returns the translation-free matrix",
+    ("deepali.core.flow:flow_derivatives", "deepali.core.image:spatial_derivatives", "order"):
+        "flow_derivatives resolves (which, order) to explicit keys and passes which=unique_keys",
+    ("deepali.core.image:spatial_derivatives", "deepali.core.image:finite_differences", "order"):
+        "the derivative order is unrolled into repeated first-order differences along the key's axes",
+    ("deepali.core.image:spatial_derivatives", "deepali.core.image:conv", "stride"):
+        "stride is the B-spline control point stride (bspline mode only), not a convolution stride",
+    ("deepali.core.image:spatial_derivatives", "deepali.core.image:conv1d", "stride"):
+        "stride is the B-spline control point stride (bspline mode only), not a convolution stride",
+    ("deepali.modules.flow:ExpFlow.forward", "deepali.core.flow:expv", "inverse"):
+        "inverse is folded into the sign of the scale handed to expv (decided by C11)",
+    ("deepali.core.bspline:evaluate_cubic_bspline", "deepali.core.kernels:cubic_bspline1d", "derivative"):
+        "transposed evaluation supports derivative order 0 only (guarded by NotImplementedError just above)",
+    ("deepali.data.image:ImageBatch.pyramid", "deepali.data.image:ImageBatch.downsample", "align_corners"):
+        "the grids of the finest level were converted with grid.align_corners(align_corners); downsample(None) uses the batch's flag",
+    ("deepali.data.image:ImageBatch.pyramid", "deepali.data.image:ImageBatch.downsample", "levels"):
+        "one level per loop iteration (default levels=1)",
+    ("deepali.data.image:ImageBatch.pyramid", "deepali.core.grid:Grid.resample", "min_size"):
+        "min_size applies to the pyramid levels, not to the resampling to the finest spacing",
+    ("deepali.core.image:downsample", "deepali.core.grid:Grid.__init__", "align_corners"):
+        "helper grid of the data shape; the flag is passed explicitly to grid.downsample(..., align_corners=align_corners) right after",
+    ("deepali.core.cube:Cube.grid", "deepali.core.grid:Grid.__init__", "align_corners"):
+        "helper Grid used only to normalise (size, shape) into a size; the returned grid is built with align_corners further down",
+    ("deepali.core.cube:Cube.grid", "deepali.core.grid:Grid.__init__", "spacing"):
+        "helper Grid used only to normalise (size, shape) into a size",
+}
+
+
+def _carried_by_receiver(fi: FunctionInfo, call: ast.Call, option: str) -> bool:
+    """Idiom: the callee is a method of a local object that was constructed / converted in this function with ``option=option``
+    (e.g. ``grid = Grid(shape=..., align_corners=align_corners); grid.resize(size)``), so the callee's default picks it up."""
+    f = call.func
+    if not isinstance(f, ast.Attribute):
+        return False
+    base = f.value
+    while isinstance(base, ast.Call) and isinstance(base.func, ast.Attribute):
+        # chained: Grid(..., align_corners=a).coords()
+        if any(k.arg == option and isinstance(k.value, ast.Name) and k.value.id == option for k in base.keywords):
+            return True
+        base = base.func.value
+    if isinstance(base, ast.Call):
+        return any(k.arg == option and isinstance(k.value, ast.Name) and k.value.id == option for k in base.keywords)
+    if not isinstance(base, ast.Name):
+        return False
+    for n in walk_no_nested(fi.node):
+        if isinstance(n, ast.Assign) and any(isinstance(t, ast.Name) and t.id == base.id for t in n.targets) and isinstance(n.value, ast.Call):
+            v = n.value
+            if any(k.arg == option and isinstance(k.value, ast.Name) and k.value.id == option for k in v.keywords):
+                return True
+            if any(isinstance(a, ast.Name) and a.id == option for a in v.args):
+                return True
+    return False
+
+
+def option_forward(ctx: Ctx, modules: Iterable[str], rule: str = "E7.option-forward", options: Optional[Set[str]] = None) -> int:
+    """Every function that takes one of the listed options and calls a resolved repo callee taking an option of the same name hands
+    it on (by keyword or position, or carried by the receiver object); confirmed exceptions are listed with their reason."""
+    options = options or FORWARDED_OPTIONS
+    ctx.rule(rule, "a function that accepts an option (align_corners, link, steps, scale, stride, spacing, sigma, dims, reduction, mask, "
+                   "padding, mode, ... — conventions and flags whose meaning is the same on both sides) and calls a repo function or "
+                   "method accepting an option of the same name passes it on (keyword, position, or carried by a receiver constructed "
+                   "with it); the 14 confirmed exceptions are listed with reasons in sa/siblings.py")
+    prog, ti = ctx.prog, ctx.ti
+    sites = 0
+    used = set()
+    for mod in modules:
+        if mod not in prog.modules:
+            raise AnalysisError(f"anchor module vanished: {mod}")
+        mi = prog.modules[mod]
+        funcs = list(mi.functions.values()) + [m for c in mi.classes.values() for m in c.methods.values()]
+        for fi in funcs:
+            if fi.overloads and fi.node in fi.overloads:
+                continue
+            ps = set(fi.params) & options
+            if not ps:
+                continue
+            tenv = ti.env(fi)
+            for n in walk_no_nested(fi.node):
+                if not isinstance(n, ast.Call):
+                    continue
+                callees = ti.resolve_call(fi, n, tenv)
+                if not callees or len(callees) != 1:
+                    continue
+                g = callees[0]
+                if isinstance(g, ClassInfo):
+                    g = prog.find_method(g, "__init__")
+                if g is None or g is fi or not g.module.name.startswith("deepali"):
+                    continue
+                method = g.cls is not None and not g.is_static
+                gp = g.params[1:] if method else g.params
+                gpos = g.pos_params[1:] if method else g.pos_params
+                if any(isinstance(a, ast.Starred) for a in n.args) or any(k.arg is None for k in n.keywords):
+                    continue
+                for p in sorted(ps & set(gp)):
+                    # the caller's own parameter must still mean the caller's argument (not shadowed by a loop variable of the same name)
+                    sites += 1
+                    passed = any(k.arg == p for k in n.keywords) or (p in gpos and gpos.index(p) < len(n.args))
+                    key = (fi.key, g.key, p)
+                    ok = passed or _carried_by_receiver(fi, n, p)
+                    if not ok and key in FORWARD_EXCEPTIONS:
+                        used.add(key)
+                        ok = True
+                    ctx.fn(fi)
+                    if not ok:
+                        ctx.report(rule, fi, f"callee={g.key} option={p}",
+                                   f"{fi.qualname}() accepts '{p}' but calls {g.qualname}() — which also takes '{p}' — without passing it on: "
+                                   f"the callee falls back to its default", node=n)
+                    ctx.ob(rule, f"{fi.key}->{g.key}:{p}@{n.lineno}", ok)
+    ctx.extra.setdefault("option_forward", {})["sites"] = sites
+    ctx.extra["option_forward"]["exceptions_used"] = sorted(f"{a} -> {b}: {c}" for a, b, c in used)
+    return sites
